@@ -333,9 +333,49 @@ def random_grammars(seed, n, start_gid, classical_only=False):
     return out
 
 
+# --------------------------------------------------------------------------- atoms / decoders / eol policies
+def atom_grammars(tier, start_gid):
+    """atoms of every Peek class and the byte-level rules, alone and under the combinators that
+    call bump themselves; inputs over byte alphabets with truncated and malformed units and with
+    CR / LF placed everywhere; run under all five eol policies."""
+    U8 = "a\n\xc3\xa9\xe2\x82\xac\xf0\x9f"        # a LF  C3 A9 (e-acute)  E2 82 AC (euro)  F0 9F (start of 4-byte)
+    LN = "a\n\rb"
+    B16 = "\x00a\xd8\xdc\n\xfe\xff"
+    items = [
+        # (body, alphabet, maxlen_quick, maxlen_thorough)
+        ("utf8::any", U8, 3, 4), ("star< utf8::any >", U8, 3, 4), ("utf8::one< 0x20AC, 0xE9 >", U8, 3, 4),
+        ("utf8::not_one< 0x61 >", U8, 3, 4), ("utf8::range< 0x80, 0x7FF >", U8, 3, 4), ("utf8::not_range< 0x61, 0x7A >", U8, 3, 4),
+        ("utf8::ranges< 0x61, 0x7A, 0x20AC >", U8, 3, 4), ("seq< utf8::string< 0x61, 0xE9 >, opt< utf8::bom > >", U8, 3, 4),
+        ("star< sor< utf8::one< 0x0A >, utf8::range< 0x80, 0x10FFFF > > >", U8, 3, 4),
+        ("plus< utf16_be::any >", B16, 3, 4), ("plus< utf16_le::any >", B16, 3, 4), ("utf16_be::one< 0x61, 0xFEFF >", B16, 3, 4),
+        ("utf16_le::range< 0x0A, 0x61 >", B16, 3, 4), ("plus< utf32_be::any >", B16, 4, 5), ("plus< utf32_le::any >", B16, 4, 5),
+        ("utf32_be::one< 0x61 >", B16, 4, 4), ("plus< uint8::any >", LN, 3, 4), ("plus< uint8::one< 0x61, 0x0A > >", LN, 3, 4),
+        ("plus< uint8::not_range< 0x62, 0x7F > >", LN, 3, 4), ("plus< uint8::mask_one< 0x5F, 0x41 > >", LN, 3, 4),
+        ("star< uint16_be::any >", B16, 3, 4), ("uint16_le::one< 0x6100, 0x0A61 >", B16, 3, 4), ("uint16_be::mask_range< 0xFF00, 0x0000, 0x6100 >", B16, 3, 4),
+        ("star< uint32_be::any >", B16, 4, 5), ("uint32_le::not_one< 0x61 >", B16, 4, 4), ("uint64_be::any", "\x00a", 8, 9), ("uint64_le::mask_one< 0xFF, 0x61 >", "\x00a", 8, 9),
+        ("plus< sor< string< 'a', '\\n' >, string< 'b' > > >", LN, 4, 5), ("plus< istring< 'a', 'B' > >", "aAbB", 4, 5),
+        ("seq< bytes< 2 >, opt< bytes< 1 > > >", LN, 4, 5), ("seq< require< 2 >, any >", LN, 3, 4),
+        ("star< sor< eol, any > >", LN, 4, 6), ("star< sor< eolf, any > >", LN, 3, 4) if False else ("seq< star< not_at< eolf >, any >, eolf >", LN, 4, 6),
+        ("star< seq< bol, until< eol > > >", LN, 4, 6), ("seq< bof, star< any >, eof >", LN, 3, 4), ("seq< opt< one< 'a' > >, everything >", LN, 4, 5),
+        ("until< eolf >", LN, 4, 6), ("until< eol, one< 'a', '\\r' > >", LN, 4, 6), ("star< not_one< 'a' > >", LN, 4, 6), ("plus< one< '\\n', 'b' > >", LN, 4, 6),
+        ("plus< range< '\\n', 'a' > >", LN, 4, 6), ("plus< ranges< 'a', 'b', '\\r' > >", LN, 4, 6), ("star< range< '\\x80', '\\xff' > >", U8, 3, 4),
+        ("seq< star< any >, must< failure > >", LN, 4, 6), ("seq< until< one< 'b' > >, must< eof > >", LN, 4, 6),
+        ("star< sor< seq< one< 'a' >, eol >, any > >", LN, 4, 6), ("rematch< until< eolf >, star< one< 'a' > > >", LN, 4, 5),
+        ("minus< plus< any >, string< 'a', 'b' > >", LN, 3, 4), ("seq< discard, star< one< 'a' >, discard > >", LN, 3, 4),
+    ]
+    out = []
+    for i, it in enumerate(items):
+        body, al, q, t = it
+        g = Gram(start_gid + i, [], body, tags=["atoms"], alphabet=bytes(al, "latin1").decode("unicode_escape"))
+        g.maxlen = q if tier == "quick" else t
+        out.append(g)
+    return out
+
+
 # --------------------------------------------------------------------------- inputs
 def inputs_for(g, maxlen):
     al = g.alphabet
+    maxlen = getattr(g, "maxlen", maxlen)
     res = [""]
     cur = [""]
     for _ in range(maxlen):
